@@ -55,8 +55,9 @@ def sanitizer_signature(stderr):
     if 'ThreadSanitizer' in cls:
         # both access stacks matter: collect top library frame of each stack
         fr = []
+        TS_FRAME = re.compile(r'#\d+ (\w+) (/\S+)')
         for blk in re.split(r'\n\s*\n', stderr[m.start():])[:4]:
-            for fm in FRAME_RE.finditer(blk):
+            for fm in TS_FRAME.finditer(blk):
                 if '/repo/' in fm.group(2) or fm.group(1).startswith('bidib_'):
                     fr.append(fm.group(1))
                     break
@@ -305,6 +306,7 @@ def main():
 
     summaries = []
     total_cands = 0
+    skipped = [0]
     for variant in variants:
         if violations or infra:
             break
@@ -369,6 +371,11 @@ def main():
                         nondet = line
                     elif line.startswith('SUMMARY '):
                         summaries.append((variant, line.split(' ', 1)[1]))
+                if p.returncode == 5 and last_start is not None and not viol_line:
+                    # run skipped: it ended in a situation this property does not judge
+                    skipped[0] += 1
+                    next_k[w] = (last_start - seed0) + NWORKERS
+                    continue
                 if nondet:
                     infra.append('simulator nondeterminism (same seed, two hashes): ' + nondet)
                     continue
@@ -560,6 +567,7 @@ def main():
             'components': COMPONENTS,
             'self_assessment_warnings': warnings,
             'interest_predicate_runs': merged['nontrivial'],
+            'runs_skipped_not_judged': skipped[0],
         },
         'assumptions': ASSUMPTIONS,
         'wall_s': round(wall, 2),
